@@ -9,7 +9,7 @@ from pyvc.arrays import SArr, bv, forall, dim_term
 from .common import mod
 
 
-def make_binning(ctx, closed="right", nb=None, hint="edges"):
+def make_binning(ctx, closed="left", nb=None, hint="edges"):   # not the library default: a lost closed= argument shows
     B = mod("yaw.binning")
     O = mod("yaw.options")
     nb = nb if nb is not None else ctx.fresh_int("num_bins", lo=1, size=True)
